@@ -136,7 +136,35 @@ def make_cfg(spec: dict):
     )
     if "seed" in spec:
         kw["seed"] = spec["seed"]
-    return MazeDatasetConfig(**kw)
+    built = spec.get("built")
+    if not built:
+        return MazeDatasetConfig(**kw)
+    # the same configuration arrived at by a caller who built a config object, looked at it (file name, serialized form, hash, summary)
+    # and then edited it in place to its final content: containers are filled through their own methods, scalar fields are assigned.
+    # The object that comes out has exactly the fields of the plain construction; what it was before is not part of its value.
+    first = dict(kw, maze_ctor_kwargs={}, endpoint_kwargs={}, applied_filters=[])
+    if built.get("scalars"):
+        first.update(name=kw["name"] + "0", grid_n=kw["grid_n"] + 1, n_mazes=kw["n_mazes"] + 1, seed=kw.get("seed", 42) + 1)
+        others = [f for f in GENERATORS_MAP.values() if f is not kw["maze_ctor"]]
+        first["maze_ctor"] = others[built.get("use", 0) % len(others)]
+    cfg = MazeDatasetConfig(**first)
+    use = built.get("use", 0)
+    for bit, fn in enumerate((cfg.to_fname, cfg.serialize, cfg.stable_hash_cfg, cfg.summary)):
+        if use >> bit & 1:
+            try:
+                fn()
+            except Exception:  # noqa: BLE001 - what the intermediate object answers is not the case's business
+                pass
+    cfg.maze_ctor_kwargs.update(kw["maze_ctor_kwargs"])
+    cfg.endpoint_kwargs.update(kw["endpoint_kwargs"])
+    cfg.applied_filters.extend(kw["applied_filters"])
+    if built.get("scalars"):
+        cfg.name, cfg.grid_n, cfg.n_mazes, cfg.maze_ctor = kw["name"], kw["grid_n"], kw["n_mazes"], kw["maze_ctor"]
+        if "seed" in kw:
+            cfg.seed = kw["seed"]
+        else:
+            cfg.seed = MazeDatasetConfig(**dict(kw, maze_ctor_kwargs={}, endpoint_kwargs={}, applied_filters=[])).seed
+    return cfg
 
 
 def json_copy(x):
